@@ -180,7 +180,8 @@ theorem data_frame_received_eq (s : S) (hrx : s.rx_seq < 8) (n r a : Nat) (p : L
     let res := BV.Src.Ash.AshProtocol.data_frame_received (.DataFrame n r a p) s
     let m := BV.Ash.onData (absS s flag) n (r != 0) p
     absS res.2 flag = m.1 ∧ evsOf s res.2 res.1 = m.2 ∧ res.2.futs = s.futs ∧ res.2.pending = s.pending ∧
-      (∀ e, res.1 = .error e → e = .raised "NcpFailure") ∧ res.2.rx_seq < 8 ∧ s.trace <+: res.2.trace := by
+      (∀ e, res.1 = .error e → e = .raised "NcpFailure") ∧ res.2.rx_seq < 8 ∧ s.trace <+: res.2.trace ∧
+      res.2.buffer = s.buffer ∧ res.2.discarding = s.discarding := by
   have hack := fun (t : S) (k : Nat) (hk : k < 8) => write_frame_eq t (.ack false false k) (ack_wf k hk) [] [resFlag]
   have hnak := fun (t : S) (k : Nat) (hk : k < 8) => write_frame_eq t (.nak false false k) (nak_wf k hk) [] [resFlag]
   simp only [ofM, b2n, List.map_nil, List.map_cons, Bool.false_eq_true, ↓reduceIte] at hack hnak
@@ -284,7 +285,7 @@ theorem ackStep_wf (s : S) (hw : WFs s) (n : Nat) : WFs (ackStep s n) := by
 theorem ackStep_fields (s : S) (n : Nat) :
     (ackStep s n).rx_seq = s.rx_seq ∧ (ackStep s n).tx_seq = s.tx_seq ∧ (ackStep s n).trace = s.trace ∧
     (ackStep s n).pending = s.pending ∧ (ackStep s n).transport = s.transport ∧ (ackStep s n).ncp_state = s.ncp_state ∧
-    (ackStep s n).futs.length = s.futs.length := by
+    (ackStep s n).futs.length = s.futs.length ∧ (ackStep s n).buffer = s.buffer ∧ (ackStep s n).discarding = s.discarding := by
   unfold ackStep
   cases s.pending.lookup n with
   | none => simp
@@ -405,42 +406,42 @@ theorem frame_received_eq (s : S) (hw : WFs s) (hrx : s.rx_seq < 8) (f : BV.Ash.
     let res := BV.Src.Ash.AshProtocol.frame_received (ofM f) s
     let m := BV.Ash.onFrame (absS s flag0) f
     absS res.2 m.1.ackTimeoutReset = m.1 ∧ evsOf s res.2 res.1 = m.2 ∧ WFs res.2 ∧ res.2.rx_seq < 8 ∧
-      s.trace <+: res.2.trace := by
+      s.trace <+: res.2.trace ∧ res.2.buffer = s.buffer ∧ res.2.discarding = s.discarding := by
   cases f with
   | data n r a p =>
     have hrun := handle_ack_run s hw (ofM (.data n r a p)) a rfl
-    obtain ⟨f1, f2, f3, f4, f5, f6, f7⟩ := ackStep_fields s ((a + 8 - 1) % 8)
+    obtain ⟨f1, f2, f3, f4, f5, f6, f7, f8, f9⟩ := ackStep_fields s ((a + 8 - 1) % 8)
     have hd := data_frame_received_eq (ackStep s ((a + 8 - 1) % 8)) (by rw [f1]; exact hrx) n (b2n r) a p false
     simp only [b2n_ne] at hd
-    obtain ⟨d1, d2, d3, d4, d5, d6, d7⟩ := hd
+    obtain ⟨d1, d2, d3, d4, d5, d6, d7, d8, d9⟩ := hd
     have hwf := ackStep_wf s hw ((a + 8 - 1) % 8)
-    simp only [ofM] at hrun d1 d2 d3 d4 d5 d6 d7
+    simp only [ofM] at hrun d1 d2 d3 d4 d5 d6 d7 d8 d9
     have habs : absS (ackStep s ((a + 8 - 1) % 8)) false = BV.Ash.handleAck { absS s flag0 with ackTimeoutReset := false } a := by
       rw [ackStep_abs s hw a false]; rfl
     rw [habs] at d1 d2
     simp only [BV.Src.Ash.AshProtocol.frame_received, ofM, BV.Src.Ash.Frame.cls, decide_true, ↓reduceIte, bind, PyM.bind,
       BV.Ash.onFrame, hrun, pure, PyM.pure]
-    generalize hres : BV.Src.Ash.AshProtocol.data_frame_received (Frame.DataFrame n (b2n r) a p) (ackStep s ((a + 8 - 1) % 8)) = res at d1 d2 d3 d4 d5 d6 d7
+    generalize hres : BV.Src.Ash.AshProtocol.data_frame_received (Frame.DataFrame n (b2n r) a p) (ackStep s ((a + 8 - 1) % 8)) = res at d1 d2 d3 d4 d5 d6 d7 d8 d9
     obtain ⟨r1, s2⟩ := res
-    simp only at d1 d2 d3 d4 d5 d6 d7
+    simp only at d1 d2 d3 d4 d5 d6 d7 d8 d9
     have hwf2 : WFs s2 := ⟨by rw [d4]; exact hwf.keys, by rw [d4]; exact hwf.ids, by rw [d4, d3]; exact hwf.valid⟩
     rw [← d1, ← d2]
-    cases r1 <;> exact ⟨rfl, evsOf_same_trace _ _ _ _ f3 |>.symm ▸ rfl, hwf2, d6, f3 ▸ d7⟩
+    cases r1 <;> exact ⟨rfl, evsOf_same_trace _ _ _ _ f3 |>.symm ▸ rfl, hwf2, d6, f3 ▸ d7, d8.trans f8, d9.trans f9⟩
   | ack res nr a =>
     have hrun := handle_ack_run s hw (ofM (.ack res nr a)) a rfl
-    obtain ⟨f1, f2, f3, f4, f5, f6, f7⟩ := ackStep_fields s ((a + 8 - 1) % 8)
+    obtain ⟨f1, f2, f3, f4, f5, f6, f7, f8, f9⟩ := ackStep_fields s ((a + 8 - 1) % 8)
     have hwf := ackStep_wf s hw ((a + 8 - 1) % 8)
     simp only [ofM] at hrun
     simp only [BV.Src.Ash.AshProtocol.frame_received, ofM, BV.Src.Ash.Frame.cls, reduceCtorEq, decide_true, decide_false, Bool.false_eq_true,
       ↓reduceIte, bind, PyM.bind, BV.Ash.onFrame, hrun, pure, PyM.pure, BV.Src.Ash.AshProtocol.ack_frame_received]
     have hfl : (BV.Ash.handleAck { absS s flag0 with ackTimeoutReset := false } a).ackTimeoutReset = false :=
       handleAck_flag _ a
-    refine ⟨?_, ?_, hwf, by rw [f1]; exact hrx, by rw [f3]; exact List.prefix_refl _⟩
+    refine ⟨?_, ?_, hwf, by rw [f1]; exact hrx, by rw [f3]; exact List.prefix_refl _, f8, f9⟩
     · rw [hfl, ackStep_abs s hw a false]; rfl
     · simp only [evsOf, f3, List.drop_length, List.filterMap_nil, outcome, List.append_nil]
   | nak res nr a =>
     have hrun := handle_ack_run s hw (ofM (.nak res nr a)) a rfl
-    obtain ⟨f1, f2, f3, f4, f5, f6, f7⟩ := ackStep_fields s ((a + 8 - 1) % 8)
+    obtain ⟨f1, f2, f3, f4, f5, f6, f7, f8, f9⟩ := ackStep_fields s ((a + 8 - 1) % 8)
     have hwf := ackStep_wf s hw ((a + 8 - 1) % 8)
     have hc := cancel_run .notAcked (ackStep s ((a + 8 - 1) % 8)) hwf
     simp only [ofM] at hrun
@@ -448,7 +449,7 @@ theorem frame_received_eq (s : S) (hw : WFs s) (hrx : s.rx_seq < 8) (f : BV.Ash.
       ↓reduceIte, bind, PyM.bind, BV.Ash.onFrame, hrun, pure, PyM.pure, BV.Src.Ash.AshProtocol.nak_frame_received, hc]
     have hfl : (BV.Ash.handleAck { absS s flag0 with ackTimeoutReset := false } a).ackTimeoutReset = false :=
       handleAck_flag _ a
-    refine ⟨?_, ?_, ?_, by rw [f1]; exact hrx, by simp only [f3]; exact List.prefix_refl _⟩
+    refine ⟨?_, ?_, ?_, by rw [f1]; exact hrx, by simp only [f3]; exact List.prefix_refl _, f8, f9⟩
     · have hfl2 : (BV.Ash.cancelPending (BV.Ash.handleAck { absS s flag0 with ackTimeoutReset := false } a)
           BV.Ash.Fut.notAcked).ackTimeoutReset = false := hfl
       rw [hfl2, cancel_abs _ hwf .notAcked false, ackStep_abs s hw a false]
@@ -459,19 +460,19 @@ theorem frame_received_eq (s : S) (hw : WFs s) (hrx : s.rx_seq < 8) (f : BV.Ash.
   | rst =>
     simp only [BV.Src.Ash.AshProtocol.frame_received, ofM, BV.Src.Ash.Frame.cls, reduceCtorEq, decide_true, decide_false, Bool.false_eq_true,
       ↓reduceIte, bind, PyM.bind, BV.Ash.onFrame, pure, PyM.pure, BV.Src.Ash.AshProtocol.rst_frame_received, PyM.modify]
-    exact ⟨by simp [absS, isOpen], by simp [evsOf, outcome], ⟨hw.keys, hw.ids, hw.valid⟩, hrx, List.prefix_refl _⟩
+    exact ⟨by simp [absS, isOpen], by simp [evsOf, outcome], ⟨hw.keys, hw.ids, hw.valid⟩, hrx, List.prefix_refl _, trivial, trivial⟩
   | rstack v c =>
     simp only [BV.Src.Ash.AshProtocol.frame_received, ofM, BV.Src.Ash.Frame.cls, reduceCtorEq, decide_true, decide_false, Bool.false_eq_true,
       ↓reduceIte, bind, PyM.bind, BV.Ash.onFrame, pure, PyM.pure, BV.Src.Ash.AshProtocol.rstack_frame_received, PyM.modify,
       emit, PyM.lift, BV.Src.Ash.Frame.get_reset_code]
-    exact ⟨by simp [absS, isOpen], by simp [evsOf, outcome, toMEv, List.filterMap], ⟨hw.keys, hw.ids, hw.valid⟩, by simp, by simp⟩
+    exact ⟨by simp [absS, isOpen], by simp [evsOf, outcome, toMEv, List.filterMap], ⟨hw.keys, hw.ids, hw.valid⟩, by simp, by simp, trivial, trivial⟩
   | error v c =>
     have hw1 : WFs { s with ncp_reset_code := some c.toNat, ncp_state := .FAILED } := ⟨hw.keys, hw.ids, hw.valid⟩
     have hc := cancel_run (.ncpFailure (some c.toNat)) { s with ncp_reset_code := some c.toNat, ncp_state := .FAILED } hw1
     simp only [BV.Src.Ash.AshProtocol.frame_received, ofM, BV.Src.Ash.Frame.cls, reduceCtorEq, decide_true, decide_false, Bool.false_eq_true,
       ↓reduceIte, bind, PyM.bind, BV.Ash.onFrame, pure, PyM.pure, BV.Src.Ash.AshProtocol.error_frame_received, PyM.modify,
       emit, PyM.lift, BV.Src.Ash.Frame.get_reset_code, PyM.get, BV.Src.Ash.AshProtocol.u_enter_failed_state, hc]
-    refine ⟨?_, ?_, ?_, hrx, by simp⟩
+    refine ⟨?_, ?_, ?_, hrx, by simp, trivial, trivial⟩
     · have := cancel_abs { s with ncp_reset_code := some c.toNat, ncp_state := .FAILED } hw1 (.ncpFailure (some c.toNat)) false
       have hp := congrArg BV.Ash.Rx.pending this
       simp only [absS, BV.Ash.cancelPending, absFut] at hp ⊢
@@ -479,4 +480,15 @@ theorem frame_received_eq (s : S) (hw : WFs s) (hrx : s.rx_seq < 8) (f : BV.Ash.
       simp [isOpen]
     · simp [evsOf, outcome, toMEv, List.filterMap]
     · exact ⟨hw.keys, hw.ids, by intro q hq; simp only [cancelFuts_length]; exact hw.valid q hq⟩
+
+/-- environment calls made between two states, read as model events -/
+def srcEvs (s s' : S) : List BV.Ash.Ev := (s'.trace.drop s.trace.length).filterMap toMEv
+
+theorem srcEvs_trans (s t u : S) (h1 : s.trace <+: t.trace) (h2 : t.trace <+: u.trace) :
+    srcEvs s u = srcEvs s t ++ srcEvs t u := by
+  obtain ⟨x, hx⟩ := h1
+  obtain ⟨y, hy⟩ := h2
+  simp only [srcEvs, ← hy, ← hx, List.append_assoc, List.drop_left, List.filterMap_append]
+  rw [← List.append_assoc, List.drop_left]
+
 end BV.Proofs.Src.AshRx
